@@ -1,7 +1,7 @@
 (** C05 — Local L2 order book equals a price->amount map after any event sequence.
     Property theorems only; each is closed by [exact <lemma>] and followed by
     [Print Assumptions]. *)
-From BV Require Import Base.Common Model.Book Proofs.Book.
+From BV Require Import Base.Common Model.Book Proofs.Book Corr.C05 Proofs.CorrC05.
 
 (** After ANY finite sequence of snapshots and updates (snapshots listing each price once per
     side) applied to ANY book whose sides are strictly sorted, the sides are still strictly
@@ -69,6 +69,13 @@ Theorem C05_sequence_is_last : forall evs e b,
   bseq (fold_left update (evs ++ [e]) b) = event_seq e.
 Proof. exact last_seq. Qed.
 Print Assumptions C05_sequence_is_last.
+
+(** Link between the theorems and the correspondence check: on every well-formed case on which
+    the implementation's observed output equals the model's ([corr_b]), the observed output
+    satisfies the property oracle ([prop_b]) — the oracle demands no more than the model gives. *)
+Theorem C05_oracle_sound : forall c, wf_case c = true -> corr_b c = true -> prop_b c = true.
+Proof. exact corr_implies_prop. Qed.
+Print Assumptions C05_oracle_sound.
 
 (** Non-vacuity: a concrete history (snapshot, front/middle/back inserts, replace, delete,
     absent delete, duplicate price inside one update) meets the hypotheses and ends in the
